@@ -229,7 +229,7 @@ async fn actor_steps(ctx: &mut Ctx, case: u64, rng: &mut Rng, h: &SyncHandle, do
         let d = rng.below(docs.len());
         let id = docs[d].ns.id();
         tick += 1;
-        match rng.below(8) {
+        match rng.below(9) {
             0 | 1 => {
                 let write = rng.chance(1, 2);
                 let cap = if write { Capability::Write(docs[d].ns.clone()) } else { Capability::Read(id) };
@@ -279,6 +279,22 @@ async fn actor_steps(ctx: &mut Ctx, case: u64, rng: &mut Rng, h: &SyncHandle, do
                     let sig = if msg.contains("read only") { "open-replica-did-not-follow-the-upgrade" } else { "local-write-failed-unexpectedly" };
                     ctx.violation(case, sig, json!({"doc": d, "err": msg, "trace": trace}));
                     return Ok((false, trace));
+                }
+            }
+            8 => {
+                // removal: releases one handle first and is refused while another one is held
+                let r = h.drop_replica(id).await;
+                let still_held = open[d] > 1;
+                trace.push(format!("drop doc{d} -> {}", r.is_ok()));
+                ctx.count("drops", 1);
+                if r.is_ok() == still_held {
+                    ctx.violation(case, if r.is_ok() { "document-removed-while-another-handle-is-held" } else { "removal-of-closed-document-failed" }, json!({"doc": d, "handles": open[d], "trace": trace}));
+                    return Ok((false, trace));
+                }
+                open[d] = open[d].saturating_sub(1);
+                if r.is_ok() {
+                    caps[d] = Cap::None;
+                    open[d] = 0;
                 }
             }
             6 => {
